@@ -181,6 +181,15 @@ class Network:
                     if len(self.reverse_service_lookup) > self.reverse_service_cache_size:
                         self.reverse_service_lookup.popitem(False)  # Pop the oldest cache entry
 
+    def _forget_service_caches(self, peer: Peer) -> None:
+        """
+        A peer became verified: the cached peer lists of the services it already advertised are now incomplete.
+
+        :param peer: the newly verified peer.
+        """
+        for service in self.services_per_peer.get(peer.public_key.key_to_bin(), ()):
+            self.reverse_service_lookup.pop(service, None)
+
     def add_verified_peer(self, peer: Peer) -> None:
         """
         The holepunching layer has a new peer for us.
@@ -201,6 +210,7 @@ class Network:
                     # This would be a programmer "error", but we will allow it.
                     self.verified_peers.add(peer)
                     self.verified_by_public_key_bin[peer.public_key.key_to_bin()] = peer
+                    self._forget_service_caches(peer)
                     list(map(methodcaller("on_peer_added", peer), self.peer_observers))
             elif all(address not in self.blacklist for address in peer.addresses.values()):
                 for address in peer.addresses.values():
@@ -209,6 +219,7 @@ class Network:
                 if peer not in self.verified_peers:
                     self.verified_peers.add(peer)
                     self.verified_by_public_key_bin[peer.public_key.key_to_bin()] = peer
+                    self._forget_service_caches(peer)
                     list(map(methodcaller("on_peer_added", peer), self.peer_observers))
 
     def register_service_provider(self, service_id: Service, overlay: Overlay) -> None:
